@@ -21,6 +21,8 @@ package simrt
 // GOMAXPROCS=1, which makes that wait, and therefore the candidate set, reproducible.
 
 import (
+	"math/rand"
+	randv2 "math/rand/v2"
 	"runtime"
 	"sort"
 )
@@ -214,6 +216,42 @@ func (r *run) goEnd(g *gstate) {
 	}
 	r.smu.Unlock()
 	r.kick()
+}
+
+// Rand / RandV2 replace the process-wide generators of math/rand and math/rand/v2, which
+// the Go runtime seeds differently in every process: here the seed is the run's.
+func Rand() *rand.Rand {
+	r := cur
+	if r == nil {
+		return rand.New(rand.NewSource(1))
+	}
+	r.smu.Lock()
+	defer r.smu.Unlock()
+	if r.rnd == nil {
+		s := int64(1)
+		if r.sc.Sched != "canon" {
+			s = int64(mix(r.sc.Seed ^ 0x72616e64))
+		}
+		r.rnd = rand.New(rand.NewSource(s))
+	}
+	return r.rnd
+}
+
+func RandV2() *randv2.Rand {
+	r := cur
+	if r == nil {
+		return randv2.New(randv2.NewPCG(1, 2))
+	}
+	r.smu.Lock()
+	defer r.smu.Unlock()
+	if r.rnd2 == nil {
+		s := uint64(1)
+		if r.sc.Sched != "canon" {
+			s = mix(r.sc.Seed ^ 0x72616e64)
+		}
+		r.rnd2 = randv2.New(randv2.NewPCG(s, 2))
+	}
+	return r.rnd2
 }
 
 // ZeroOf declares a variable of a channel's element type (used by the select rewrite).
